@@ -66,4 +66,16 @@ example : (run {} [[0x61, 0x3d], [0x31, 0x26, 0x62, 0x3d, 0x25, 0x34, 0x31, 0x26
                    [0x3d, 0x64, 0x26, 0x65, 0x3d]]).1 =
     [([0x61], [0x31]), ([0x62], [0x41]), ([], []), ([0x63], []), ([], [0x64]), ([0x65], [])] := by decide
 
+/-- the hex-digit arithmetic of `x2c` (htp_util.c): `(c >= 'A' ? ((c & 0xdf) - 'A') + 10 : (c - '0'))`, in unsigned char -/
+def x2cDigit (b : UInt8) : UInt8 := if b ≥ 0x41 then ((b &&& 0xdf) - 0x41) + 10 else b - 0x30
+
+/-- **C15 (the escape table is the documented arithmetic)**: the two x2c tables the translator regenerates from the current source on every
+    run are, for all 256 bytes - valid hex digits or not, which matters under HTP_URL_DECODE_PROCESS_INVALID - exactly
+    `digit(a) * 16 + digit(b)`. A change to `x2c` that keeps valid escapes intact but moves any other byte breaks this by kernel evaluation. -/
+theorem C15_x2c_table : ∀ b : UInt8, Htp.Gen.x2cLo b = x2cDigit b ∧ Htp.Gen.x2cHi b = x2cDigit b * 16 := by
+  apply forall_uint8_of_lt
+  decide +kernel
+
+example : Htp.Gen.x2cHi 0x34 + Htp.Gen.x2cLo 0x31 = 0x41 ∧ Htp.Gen.x2cSeparable = true := by decide
+
 end Htp.C15
